@@ -20,6 +20,7 @@ cvxopt.blas -- NOT from the control flow of blas.c.  For every function:
   * expected(call)      full verdict + numpy reference on exactly the addressed
                         elements (+ componentwise |.| scale for the error bound)
   * gen_call(rng, name, stratum)   concrete call descriptions
+  * invocation(call, objs), to_cvxopt(buf), omitted(call), with_explicit(call, names), describe(call)
 
 Importable with numpy only (no cvxopt).
 
@@ -1424,6 +1425,13 @@ def _mutate_illegal(rng, call):
 def gen_call(rng, name, stratum):
     """stratum 1: consistent; 2: boundary boxes; 3: type conflicts / illegal values.
     rng is a random.Random; all randomness comes from it."""
+    call = _gen_call(rng, name, stratum)
+    # drawn last, so that it does not influence the call itself: pass the required arguments by keyword too
+    call["meta"]["bykw"] = rng.random() < 0.25
+    return call
+
+
+def _gen_call(rng, name, stratum):
     if stratum == 1:
         friendly = rng.random() < 0.45
         call = _gen_base(rng, name, friendly)
@@ -1450,6 +1458,43 @@ def gen_call(rng, name, stratum):
     _mutate_illegal(rng, call)
     call["meta"]["stratum"] = 3
     return call
+
+
+def invocation(call, objs):
+    """(positional, keyword) arguments of the call; objs = {buffer name: object passed for it}.  Required
+    arguments are positional (or keywords if meta.bykw), optional ones always keywords (the docstring signature
+    lines of geru and her2k list them in another order than the ARGUMENTS sections)."""
+    sp = SPECS[call["fn"]]
+    val = lambda n: objs[n] if sp.kinds[n] == "mat" else call["args"][n]
+    bykw = bool(call.get("meta", {}).get("bykw"))
+    pos = [] if bykw else [val(n) for n in sp.required]
+    kw = {n: val(n) for n in sp.required} if bykw else {}
+    for n in sp.optional:
+        if sp.kinds[n] == "mat" or n in call["args"]:
+            kw[n] = val(n)
+    return pos, kw
+
+
+def to_cvxopt(buf):
+    """the object passed for a buffer description (imports cvxopt lazily): dense matrix built from Python
+    numbers, or a list / spmatrix / None for the 'not a matrix' conflicts"""
+    from cvxopt import matrix, spmatrix
+    conv = {"d": float, "z": complex, "i": int}
+    kind, tc = buf.get("kind", "matrix"), buf["tc"]
+    r, c = buf["size"]
+    if kind == "none":
+        return None
+    lst = [conv[tc](v) for v in buf["data"]]
+    if kind == "list":
+        return lst
+    if kind == "spmatrix":
+        tcs = "z" if tc == "z" else "d"
+        I = [t % r for t in range(r * c)] if r else []
+        J = [t // r for t in range(r * c)] if r else []
+        return spmatrix([conv[tcs](v) for v in lst], I, J, (r, c), tcs)
+    if r * c == 0:
+        return matrix(conv[tc](0), (r, c), tc)
+    return matrix(lst, (r, c), tc)
 
 
 def with_explicit(call, names):
